@@ -15,8 +15,8 @@ EXTENDS Integers, Sequences, FiniteSets, TLC, SequencesExt, FiniteSetsExt
 RECURSIVE GCD(_, _)
 GCD(a, b) == IF b = 0 THEN a ELSE GCD(b, a % b)
 LCM(a, b) == (a * b) \div GCD(a, b)
-RECURSIVE LcmSeq(_)
-LcmSeq(s) == IF s = <<>> THEN 1 ELSE LCM(Head(s), LcmSeq(Tail(s)))
+RECURSIVE LcmSet(_)
+LcmSet(S) == IF S = {} THEN 1 ELSE LET x == Max(S) IN LCM(x, LcmSet(S \ {x}))       \* few distinct denominators
 FracNum(p, DEN) == p \div GCD(p, DEN)
 FracDen(p, DEN) == DEN \div GCD(p, DEN)          \* p = 0 gives 1
 Ok(val)  == [err |-> "", val |-> val]
@@ -40,17 +40,20 @@ GetMpGrid(pts, DEN) ==
    the points on the grid are selected, a repeated point only at its first occurrence; fewer selected points than
    the grid has raise ValueError, more raise RuntimeError; the grid (grid = None) or the selected indices are returned *)
 NoGrid == <<>>
-LcmGrid(pts, DEN) == [ax \in 1..3 |-> LcmSeq([i \in 1..Len(pts) |-> FracDen(pts[i][ax], DEN)])]
-SelectedIdx(pts, g, DEN) ==
-   SelectSeq([i \in 1..Len(pts) |-> i], LAMBDA i : OnGrid(pts[i], g, DEN) /\ \A j \in 1..(i - 1) : pts[j] # pts[i])
-GridFromKpoints(pts, grid, DEN) ==
+LcmGrid(pts, DEN) == [ax \in 1..3 |-> LcmSet({FracDen(pts[i][ax], DEN) : i \in 1..Len(pts)})]
+(* Dedup = FALSE (repeated points selected again) is a wrong variant used by the sensitivity self-test only *)
+SelectedIdxV(pts, g, DEN, Dedup) ==
+   SelectSeq([i \in 1..Len(pts) |-> i], LAMBDA i : OnGrid(pts[i], g, DEN) /\ (Dedup => \A j \in 1..(i - 1) : pts[j] # pts[i]))
+SelectedIdx(pts, g, DEN) == SelectedIdxV(pts, g, DEN, TRUE)
+GridFromKpointsV(pts, grid, DEN, Dedup) ==
    LET gf  == IF grid = NoGrid THEN LcmGrid(pts, DEN) ELSE grid
        g   == << gf[1], gf[2], gf[3] >>
-       sel == SelectedIdx(pts, g, DEN)
+       sel == SelectedIdxV(pts, g, DEN, Dedup)
        tot == g[1] * g[2] * g[3]
    IN IF Len(sel) < tot THEN Err("ValueError")
       ELSE IF Len(sel) > tot THEN Err("RuntimeError")
       ELSE IF grid = NoGrid THEN Ok(g) ELSE Ok([q \in 1..Len(sel) |-> sel[q] - 1])
+GridFromKpoints(pts, grid, DEN) == GridFromKpointsV(pts, grid, DEN, TRUE)
 
 -----------------------------------------------------------------------------
 (* meshes *)
